@@ -248,7 +248,7 @@ theorem declOK_some_ne_nil (s u : Str) (h : declOK (some s, u) = true) : u ≠ [
 
 theorem reset_ok (env : NsEnv) (d : Option Str) (tag : EName) (M : NsMap) (hM : MapOK env d M) :
     MapOK env d (resetDefaultNamespace tag M) := by
-  refine ⟨?_, ?_, ?_, ?_⟩
+  refine ⟨?_, ?_, ?_⟩
   · rw [reset_eq]; split
     · exact NoDupKeys_dset M none [] hM.nodup
     · exact hM.nodup
@@ -261,17 +261,13 @@ theorem reset_ok (env : NsEnv) (d : Option Str) (tag : EName) (M : NsMap) (hM : 
     split at h
     · cases h; exact Or.inl rfl
     · exact hM.dflt u h
-  · intro s u h hn
-    rw [reset_dget_some] at h
-    rw [reset_dget_none] at hn
-    split at hn
-    · cases hn
-      exact declOK_some_ne_nil s [] (hM.decl _ (dget_some_mem _ _ _ h)) rfl
-    · exact hM.nodflt s u h hn
 
-/-- generator context agrees with the map: every bound URI has a live prefix -/
-def K2 (M : NsMap) (cur : List (Str × Pfx)) : Prop :=
-  ∀ u, u ≠ [] → prefixExists u M = true → ∃ k, dget cur u = some k ∧ dget M k = some u
+/-- generator context agrees with the map: a namespace bound to a prefix has a live
+*prefixed* entry in `_current_context`; a namespace that is only the default namespace
+maps to the empty prefix -/
+structure K2 (M : NsMap) (cur : List (Str × Pfx)) : Prop where
+  pre : ∀ u, u ≠ [] → ∀ s, dget M (some s) = some u → ∃ s', dget cur u = some (some s') ∧ dget M (some s') = some u
+  dfl : ∀ u, u ≠ [] → dget M none = some u → (∀ s, dget M (some s) ≠ some u) → dget cur u = some none
 
 def ScopeEq (S : List (Pfx × Str)) (M : NsMap) : Prop := ∀ k, dget S k = dget M k
 
@@ -283,14 +279,71 @@ theorem prefixExists_true (u : Str) (M : NsMap) (h : prefixExists u M = true) : 
   subst heq
   exact ⟨k, he⟩
 
-theorem K2_nil : K2 [] [] := by
-  intro u _ h
-  simp [prefixExists] at h
+theorem K2_nil : K2 [] [] := ⟨by intro u _ s h; simp [dget] at h, by intro u _ h; simp [dget] at h⟩
+
+/-- every bound namespace has a live entry -/
+theorem K2.live {M : NsMap} {cur : List (Str × Pfx)} (hK : K2 M cur) (hnd : NoDupKeys M) (u : Str) (hu : u ≠ [])
+    (hp : prefixExists u M = true) : ∃ k, dget cur u = some k ∧ dget M k = some u := by
+  by_cases hs : ∃ s, dget M (some s) = some u
+  · obtain ⟨s, hs⟩ := hs
+    obtain ⟨s', h1, h2⟩ := hK.pre u hu s hs
+    exact ⟨some s', h1, h2⟩
+  · have hs' : ∀ s, dget M (some s) ≠ some u := fun s h => hs ⟨s, h⟩
+    obtain ⟨k, hk⟩ := prefixExists_true u M hp
+    have hget := NoDupKeys_dget_of_mem M k u hnd hk
+    cases k with
+    | some s => exact absurd hget (hs' s)
+    | none => exact ⟨none, hK.dfl u hu hget hs', hget⟩
+
+theorem lastFor_append (u : Str) (A X : List (Pfx × Str)) :
+    lastFor u (A ++ X) = match lastFor u X with
+      | some k => some k
+      | none => lastFor u A := by
+  induction A with
+  | nil => simp only [List.nil_append, lastFor]; cases lastFor u X <;> rfl
+  | cons e r ih =>
+    obtain ⟨p, u'⟩ := e
+    simp only [List.cons_append, lastFor, ih]
+    cases lastFor u X with
+    | some k => rfl
+    | none => rfl
+
+theorem newPrefixes_nil (M : NsMap) : newPrefixes [] M = M := by
+  induction M with
+  | nil => rfl
+  | cons e r ih => obtain ⟨p, u⟩ := e; simp [newPrefixes, dget, ih]
+
+/-- where a default namespace can enter: only in the first element's map (`B = []`), in its
+front part (the cleaned user map), which does not bind the same namespace to a prefix -/
+def YOK (B Y : NsMap) : Prop :=
+  ∀ u, dget Y none = some u → B = [] ∧ ∃ Y0 X, Y = Y0 ++ X ∧ (∀ e ∈ X, e.1 ≠ none) ∧ (∀ s, dget Y0 (some s) ≠ some u)
+
+theorem YOK_of_prefixed (B Y : NsMap) (h : ∀ e ∈ Y, e.1 ≠ none) : YOK B Y := by
+  intro u hu
+  exact absurd rfl (h _ (dget_some_mem _ _ _ hu))
+
+theorem YOK_append (B Y X : NsMap) (h : YOK B Y) (hX : ∀ e ∈ X, e.1 ≠ none) : YOK B (Y ++ X) := by
+  intro u hu
+  rw [dget_append] at hu
+  cases hy : dget Y none with
+  | none =>
+    rw [hy] at hu
+    exact absurd rfl (hX _ (dget_some_mem _ _ _ hu))
+  | some v =>
+    rw [hy] at hu
+    simp only [Option.some.injEq] at hu
+    subst hu
+    obtain ⟨hB, Y0, X0, hY, hX0, hY0⟩ := h v hy
+    refine ⟨hB, Y0, X0 ++ X, by rw [hY]; simp, ?_, hY0⟩
+    intro e he
+    rcases List.mem_append.mp he with h1 | h1
+    · exact hX0 e h1
+    · exact hX e h1
 
 /-- the flush step keeps all invariants -/
 theorem flush_inv (env : NsEnv) (d : Option Str) (B Y : NsMap) (tag : EName)
     (S : List (Pfx × Str)) (cur : List (Str × Pfx))
-    (hM : MapOK env d (B ++ Y)) (hS : ScopeEq S B) (hK : K2 B cur) :
+    (hM : MapOK env d (B ++ Y)) (hS : ScopeEq S B) (hK : K2 B cur) (hY : YOK B Y) :
     MapOK env d (resetDefaultNamespace tag (B ++ Y))
     ∧ (newPrefixes B (resetDefaultNamespace tag (B ++ Y))).all declOK = true
     ∧ nodupKeys (newPrefixes B (resetDefaultNamespace tag (B ++ Y))) = true
@@ -299,7 +352,12 @@ theorem flush_inv (env : NsEnv) (d : Option Str) (B Y : NsMap) (tag : EName)
   have hMf := reset_ok env d tag (B ++ Y) hM
   generalize hMfdef : resetDefaultNamespace tag (B ++ Y) = Mf at hMf ⊢
   have hsub : ∀ e, e ∈ newPrefixes B Mf → e ∈ Mf := fun e he => ((mem_newPrefixes B Mf e).mp he).1
-  refine ⟨hMf, ?_, ?_, ?_, ?_⟩
+  -- prefixed entries of the base survive
+  have hkeep : ∀ s v, dget B (some s) = some v → dget Mf (some s) = some v := by
+    intro s v h
+    rw [← hMfdef, reset_dget_some]
+    exact dget_append_left B Y (some s) v h
+  refine ⟨hMf, ?_, ?_, ?_, ?_, ?_⟩
   · simp only [List.all_eq_true]
     exact fun e he => hMf.decl e (hsub e he)
   · exact nodupKeys_of_NoDupKeys _ (NoDupKeys_newPrefixes B Mf hMf.nodup)
@@ -326,37 +384,72 @@ theorem flush_inv (env : NsEnv) (d : Option Str) (B Y : NsMap) (tag : EName)
         cases hb : dget B k with
         | none => rfl
         | some v => rw [hb] at h1; cases h1
-  · intro u hu hpe
+  · -- namespaces bound to a prefix
+    intro u hu s hs
     rw [dget_applyCur]
     cases hl : lastFor u (newPrefixes B Mf) with
-    | some p =>
-      exact ⟨p, rfl, NoDupKeys_dget_of_mem Mf p u hMf.nodup (hsub _ (lastFor_some u _ p hl))⟩
+    | some k =>
+      have hmem := lastFor_some u _ k hl
+      cases k with
+      | some s' => exact ⟨s', rfl, NoDupKeys_dget_of_mem Mf (some s') u hMf.nodup (hsub _ hmem)⟩
+      | none =>
+        -- the last declaration for `u` is the default namespace: only possible in the first element
+        exfalso
+        have hnew := (mem_newPrefixes B Mf (none, u)).mp hmem
+        have hMfn : dget Mf none = some u := NoDupKeys_dget_of_mem Mf none u hMf.nodup hnew.1
+        have hnofire : Mf = B ++ Y := by
+          rw [← hMfdef, reset_eq]
+          split
+          · exfalso
+            rw [← hMfdef, reset_dget_none] at hMfn
+            simp [*] at hMfn
+          · rfl
+        have hYn : dget Y none = some u := by
+          rw [hnofire, dget_append] at hMfn
+          cases hb : dget B none with
+          | none => rw [hb] at hMfn; exact hMfn
+          | some v => rw [hb] at hMfn; cases hMfn; exact absurd hb hnew.2
+        obtain ⟨hB, Y0, X, hYX, hX, hY0⟩ := hY u hYn
+        subst hB
+        rw [hnofire, List.nil_append, hYX] at hl hs
+        rw [newPrefixes_nil, lastFor_append] at hl
+        -- the prefixed entry for `u` lies in `X`
+        have hsX : (some s, u) ∈ X := by
+          rw [dget_append] at hs
+          cases h0 : dget Y0 (some s) with
+          | some v => rw [h0] at hs; cases hs; exact absurd h0 (hY0 s)
+          | none => rw [h0] at hs; exact dget_some_mem _ _ _ hs
+        cases hlx : lastFor u X with
+        | some k =>
+          rw [hlx] at hl
+          cases hl
+          exact hX _ (lastFor_some u X none hlx) rfl
+        | none => exact lastFor_none u X hlx _ hsX rfl
     | none =>
       simp only []
       have hnot := lastFor_none u _ hl
-      obtain ⟨k, hk⟩ := prefixExists_true u Mf hpe
-      have hbk : dget B k = some u := by
-        by_cases hb : dget B k = some u
+      have hbs : dget B (some s) = some u := by
+        by_cases hb : dget B (some s) = some u
         · exact hb
-        · exact absurd rfl (hnot (k, u) ((mem_newPrefixes B Mf (k, u)).mpr ⟨hk, hb⟩))
-      obtain ⟨k0, hc, hb0⟩ := hK u hu (prefixExists_of_mem u B (k, u) (dget_some_mem _ _ _ hbk) rfl)
-      refine ⟨k0, hc, ?_⟩
-      have happ : dget (B ++ Y) k0 = some u := dget_append_left B Y k0 u hb0
-      cases k0 with
-      | some s => rw [← hMfdef, reset_dget_some]; exact happ
-      | none =>
-        rw [← hMfdef, reset_dget_none]
-        split
-        · -- the default was reset although `u` is still bound through `k`
-          exfalso
-          have hMfnone : dget Mf none = some [] := by
-            rw [← hMfdef, reset_dget_none]; simp [*]
-          cases k with
-          | none =>
-            have := NoDupKeys_dget_of_mem Mf none u hMf.nodup hk
-            rw [hMfnone] at this; cases this; exact hu rfl
-          | some s =>
-            exact hM.nodflt s u (dget_append_left B Y (some s) u hbk) happ
-        · exact happ
+        · exact absurd rfl (hnot (some s, u) ((mem_newPrefixes B Mf (some s, u)).mpr ⟨dget_some_mem _ _ _ hs, hb⟩))
+      obtain ⟨s', h1, h2⟩ := hK.pre u hu s hbs
+      exact ⟨s', h1, hkeep s' u h2⟩
+  · -- namespaces that are only the default namespace
+    intro u hu hn hnos
+    rw [dget_applyCur]
+    cases hl : lastFor u (newPrefixes B Mf) with
+    | some k =>
+      have hmem := hsub _ (lastFor_some u _ k hl)
+      cases k with
+      | none => rfl
+      | some s' => exact absurd (NoDupKeys_dget_of_mem Mf (some s') u hMf.nodup hmem) (hnos s')
+    | none =>
+      simp only []
+      have hnot := lastFor_none u _ hl
+      have hbn : dget B none = some u := by
+        by_cases hb : dget B none = some u
+        · exact hb
+        · exact absurd rfl (hnot (none, u) ((mem_newPrefixes B Mf (none, u)).mpr ⟨dget_some_mem _ _ _ hn, hb⟩))
+      exact hK.dfl u hu hbn (fun s h => hnos s (hkeep s u h))
 
 end Proofs.Flush
